@@ -36,7 +36,7 @@ XSI = "http://www.w3.org/2001/XMLSchema-instance"
 
 M1 = '''
 from dataclasses import dataclass, field
-from typing import Optional, Dict, Callable, Union
+from typing import List, Optional, Dict, Callable, Union
 from xsdata.models.datatype import XmlDate, XmlDuration
 
 
@@ -120,6 +120,15 @@ class UDog:
 @dataclass
 class UHolder:
     u: Optional[Union[UCat, UDog]] = field(default=None, metadata={"type": "Element"})
+
+
+@dataclass
+class NilPair:
+    """a compound field with TWO nillable choices, a plain one and a tokens one: None belongs to the first,
+    an empty token list to the second - which one a nil value takes must not depend on what was asked before"""
+    vals: List[Union[None, int, List[str]]] = field(default_factory=list, metadata={
+        "type": "Elements", "choices": ({"name": "n", "type": Optional[int], "nillable": True},
+                                        {"name": "toks", "type": List[str], "tokens": True, "nillable": True})})
 
 
 @dataclass
@@ -233,6 +242,12 @@ def api_ops():
         # element name): the verdict for one string says nothing about the next string
         "decCompoundDate": lambda sh: sh.jp.from_string('{"when": "2024-02-29"}', m.Ev),
         "decCompoundDuration": lambda sh: sh.jp.from_string('{"when": "P1DT12H"}', m.Ev),
+        "serNilPlain": lambda sh: sh.xs.render(m.NilPair(vals=[None, 3])),
+        "serNilTokens": lambda sh: sh.xs.render(m.NilPair(vals=[[], ["a", "b"]])),
+        "encNilPlain": lambda sh: sh.js.render(m.NilPair(vals=[None])),
+        "encNilTokens": lambda sh: sh.js.render(m.NilPair(vals=[[]])),
+        "decNilPlain": lambda sh: sh.jp.from_string('{"vals": [null, 3]}', m.NilPair),
+        "decNilTokens": lambda sh: sh.jp.from_string('{"vals": [[], ["a"]]}', m.NilPair),
         "parseUnion": lambda sh: sh.xp.from_string("<UHolder><u><bark>3</bark></u></UHolder>", m.UHolder),
     }
 
